@@ -186,6 +186,36 @@ def run(db, cx):
                   "step_limit(%s)" % ev["args"][0]["t"], short(ev["loc"]),
                   why="a post-step action may not move the track")
 
+    # 3b the MSC hand-off flag is step-local: MscApplier replays msc_step() whenever geom_path > 0,
+    # so the limiter stage has to (re)define it on every path of every step
+    GP = C + "MscStep::geom_path"
+    lims = db.get(D + "MscStepLimitApplier::operator()")
+    cx.require(lims, "anchor MscStepLimitApplier::operator() not found")
+    nlim = 0
+    for f in lims:
+        tag = f.inst.split("MscStepLimitApplier<")[-1][:40]
+        if "NoMsc" in tag:
+            continue
+        nlim += 1
+
+        def defines_flag(e):
+            if e["e"] == "write" and path_leaf(e.get("path")) == GP:
+                return True
+            return e["e"] == "call" and e["callee"].endswith("::limit_step")
+        okp, pth = f.must_pass(defines_flag)
+        cx.ob("C05.3-msc-flag", "MscStepLimitApplier (re)defines msc_step().geom_path on every path [%s]"
+              % tag, okp, "limit_step(track) or geom_path = 0 on every path", short(f.loc),
+              path=f.path_locs(pth),
+              why="MscApplier applies the stored MSC step whenever geom_path > 0: a path that leaves "
+                  "the previous step's record in place makes a track take the old true path as its "
+                  "step length (e.g. a stopped positron reports a non-zero step)")
+    cx.floor("MscStepLimitApplier instantiations with MSC", nlim, 1)
+    for f in db.get(C + "UrbanMsc::limit_step"):
+        okp, pth = f.must_pass(lambda e: (e["e"] == "call" and e["callee"] == C + "PhysicsStepView::msc_step"
+                                          and len(e.get("args", [])) == 1))
+        cx.ob("C05.3-msc-flag", "UrbanMsc::limit_step stores the MSC step record on every path", okp,
+              "", short(f.loc), path=f.path_locs(pth))
+
     # 4 step counter -----------------------------------------------------------
     w = field_writers(db, SIM + "num_steps")
     check_owners(cx, "C05.4-step-counter", "SimStateData::num_steps", w,
